@@ -780,11 +780,13 @@ func (r *vsRun) runHistory(head []string, rows [][]string) []string {
 	}
 	if g, ok := cs.(*gcpClientStream); ok && g.cond != nil {
 		// whoever is still in the wait set (a receiver the unpatched code never wakes) must not outlive the history
-		g.Mutex.Lock()
-		if g.ClientStream == nil && g.initStreamErr == nil {
-			g.initStreamErr = errors.New("harness teardown")
+		// (TryLock: a call that returned with the mutex held has left it locked for good)
+		if g.Mutex.TryLock() {
+			if g.ClientStream == nil && g.initStreamErr == nil {
+				g.initStreamErr = errors.New("harness teardown")
+			}
+			g.Mutex.Unlock()
 		}
-		g.Mutex.Unlock()
 		for i := 0; i < 3; i++ {
 			g.cond.Broadcast()
 			runtime.Gosched()
@@ -913,11 +915,13 @@ func (r *vsRun) runFree(head []string, rng *vsRng) []string {
 	evmu.Unlock()
 	env.cancel()
 	if g, ok := cs.(*gcpClientStream); ok && g.cond != nil {
-		g.Mutex.Lock()
-		if g.ClientStream == nil && g.initStreamErr == nil {
-			g.initStreamErr = errors.New("harness teardown")
+		// (TryLock: a call that returned with the mutex held has left it locked for good)
+		if g.Mutex.TryLock() {
+			if g.ClientStream == nil && g.initStreamErr == nil {
+				g.initStreamErr = errors.New("harness teardown")
+			}
+			g.Mutex.Unlock()
 		}
-		g.Mutex.Unlock()
 		g.cond.Broadcast()
 	}
 	return out
